@@ -449,7 +449,7 @@ func runC10(c *Ctx) (int, error) {
 		}
 		for k := 1; k < len(pc.Tokens); k++ {
 			t := pc.Tokens[k-1]
-			if t == "~" || t == "^" || t == "\n" || t == "#" || t == "%" {
+			if t == "~" || t == "^" || t == "\n" || t == "#" || t == "%" || t == "<ro>" {
 				continue
 			}
 			nprefix++
